@@ -1,8 +1,10 @@
 from common import T_COMMON
 
 CFG = dict(
-    modules=["PolyVerif.Props.C03", "PolyVerif.Props.C03Values", "PolyVerif.Props.C03Normals", "PolyVerif.Props.C03Laplacian", "PolyVerif.Props.C03WeldUnweld", "PolyVerif.Props.C03Callbacks", "PolyVerif.Props.C03More"],
-    gen=[dict(spec="transform.json", out="Transform.lean")],
+    modules=["PolyVerif.Props.C03", "PolyVerif.Props.C03Values", "PolyVerif.Props.C03Normals", "PolyVerif.Props.C03Laplacian", "PolyVerif.Props.C03WeldUnweld", "PolyVerif.Props.C03Callbacks", "PolyVerif.Props.C03More", "PolyVerif.Props.C03Src"],
+    gen=[dict(spec="transform.json", out="Transform.lean"),
+         # engine F: per-vertex expressions / loop glue of the attribute maps and the crop guard, from modeling/meshops/*.go (go/facts/c03.go)
+         dict(tool="facts", mode="c03.pervertex", out="MeshPerVertex.lean")],
     theorems=["unweld_spec", "unweld_idem", "removeUnreferenced_spec", "removeUnreferenced_allReferenced", "filterAttr_allReferenced", "flip_spec", "flip_flip", "flip_rejects",
               "toPointCloud_spec", "split_single", "split_rejects_non_triangle", "split_partition", "split_spec", "weld_corners", "weld_representative", "weld_survivors", "weld_spec", "weld_keyCorners", "weld_unweld", "append_spec", "append_rejects", "append_cornersOrZero", "repeatMesh_corners", "filterAttr_spec", "crop_spec", "removeNullFaces_spec", "filterAttr_rejects", "crop_rejects", "removeNullFaces_rejects", "weld_rejects", "scanAttr_spec", "scanVisits_spec", "scanPrimitives_spec", "modifyAttrIdx_spec", "modifyAttrIdx_rejects", "setAttr_spec", "modifyAttr_spec", "mapAttr_spec", "modifyAttr_rejects",
               "translate_spec", "scaleAbout_spec", "scaleMesh_spec", "rotate_spec", "applyTRS_spec", "center_spec",
@@ -12,7 +14,9 @@ CFG = dict(
               "flatNormals_spec_nondegenerate", "lapUpdate_value_with_neighbours", "neighbours_ne_nil_of_edge", "laplacian_order_independent", "lapIter_any_enumeration", "neighbours_mem", "neighbours_nodup", "laplacian_frame", "smoothNormals_frame", "flatNormals_frame",
               # round 2 (Props/C03More.lean)
               "aabbContains_closed", "aabbContains_corners", "crop_contract", "crop_deciding_attr", "scaleAlongNormal_spec", "scaleAlongNormal_rejects", "scaleAlongNormal_rejects_wf",
-              "scale2D_spec", "normalize2D_spec", "scale2D_rejects", "normalize2D_rejects", "copyAttr_spec", "alongNormal_post", "scale2D_post"],
+              "scale2D_spec", "normalize2D_spec", "scale2D_rejects", "normalize2D_rejects", "copyAttr_spec", "alongNormal_post", "scale2D_post",
+              # round 2 (Props/C03Src.lean): the model lambdas are the expressions regenerated from the Go source
+              "translate_from_source", "scaleAbout_from_source", "rotate_from_source", "scale2D_from_source", "alongNormal_from_source", "perVertex_glue_from_source", "crop_keep_from_source", "crop_keep_closed"],
     # unfoldings of model definitions / statements over R that do not transfer to Go on the excluded float-only branches
     helper_theorems=["laplacian_spec", "lapSweepWith_succ", "lapSweepWith_untouched", "flatNormals_spec", "flatNormals_values", "lapUpdate_value", "flatAccum_last",
                      "keepAt_eq_compact", "keepAt_map_self", "stripEmpty_attrs_zero", "stripEmpty_attrs_pos", "alongNormal_v3"],
